@@ -60,6 +60,12 @@ impl Database {
         Ok(())
     }
 
+    /// Storage handle for the verification harness.
+    #[cfg(risinglight_verif)]
+    pub fn verif_storage(&self) -> StorageImpl {
+        self.storage.clone()
+    }
+
     /// Convert a command to SQL.
     fn command_to_sql(&self, cmd: &str) -> Result<String, Error> {
         let tokens = cmd.split_whitespace().collect::<Vec<_>>();
@@ -110,6 +116,8 @@ impl Database {
             if !self.config.lock().unwrap().disable_optimizer {
                 plan = optimizer.optimize(plan);
             }
+            #[cfg(risinglight_verif)]
+            crate::verif::gate("db.run.bound").await;
             let executor = match self.storage.clone() {
                 StorageImpl::InMemoryStorage(s) => {
                     crate::executor::build(optimizer.clone(), s, &plan)
